@@ -30,9 +30,14 @@ theorem no_asm : Gen.asmUses = [] := by decide
     ways out of a library function are `ret` and the calls of the symbol surface above -/
 theorem no_trap_instructions : Gen.trapInsns = [] := by decide
 
-/-- the library itself makes no call through a function pointer (the qsort comparators are
-    called by qsort, and are functions of this library) -/
-theorem no_indirect_calls : Gen.indirectCalls = [] := by decide
+/-- calls through function pointers cannot leave the surface: the public headers declare no
+    function-pointer parameter or field (the caller cannot hand in code), and every function whose
+    address is taken anywhere in the library — the only possible targets of an indirect call, made
+    by the library or by `qsort` — is a function the library defines itself or one of the passive
+    family.  (Today there is no indirect call site at all; the statement does not depend on that,
+    so a dispatch table of the library's own functions is not an alarm.) -/
+theorem indirect_calls_stay_inside :
+    Gen.apiFunctionPointers = [] ∧ ∀ a ∈ Gen.addrTaken, a.2.2.2 = true ∨ a.2.2.1 ∈ allowed := by decide
 
 /-! An abstract statement of what the surface check buys: a program whose external calls all
     have an effect class inside a set `E` only has effects in `E`. -/
